@@ -118,6 +118,9 @@ def simulate(case):
                         answered.add(rid)
                     elif mode == "wrong":
                         w.peer("0", None, [(112, "424242")])
+                    elif mode == "wrong_spelled":
+                        # the right number, another string: leading zero / sign - not the TestReqID that was sent
+                        w.peer("0", None, [(112, ("0" + str(rid)) if len(tl["tr"]) % 2 else ("+" + str(rid)))])
                     elif mode == "wrong_hi":
                         w.peer("0", None, [(112, str(int(rid) + 1) if str(rid).isdigit() else "99999999999")])
                     elif mode == "noid":
@@ -196,7 +199,7 @@ def judge(case, tl):
     disc = tl["disc"]
     end = disc if disc is not None else H
     trs = [k for k, _ in tl["tr"]]
-    wrong_mode = ans and ans[0] in ("wrong", "wrong_hi")
+    wrong_mode = ans and ans[0] in ("wrong", "wrong_hi", "wrong_spelled")
     # 1. every inbound TestRequest answered with the same id (immediately, same step)
     got = {rid: k for k, rid in tl["hb_replies"]}
     for k, rid in tl["inbound_tr"]:
@@ -252,7 +255,7 @@ def judge(case, tl):
         due = k0 + ans[1]
         if due <= H and (disc is None or disc >= due):
             if disc is None or disc > due + 1:
-                V("wrong_testreqid_not_disconnected", hbclass + (":id_above_expected" if ans[0] == "wrong_hi" else ""), "a Heartbeat echoing a wrong TestReqID ends the session with a Logout", due=due)
+                V("wrong_testreqid_not_disconnected", hbclass + (":id_above_expected" if ans[0] == "wrong_hi" else (":id_respelled" if ans[0] == "wrong_spelled" else "")), "a Heartbeat echoing a wrong TestReqID ends the session with a Logout", due=due)
             elif not tl["logout"]:
                 V("wrong_testreqid_no_logout", hbclass, "a Heartbeat echoing a wrong TestReqID ends the session with a Logout", due=due)
     if case.get("second_life") and tl.get("life2_state0") is not None:
@@ -303,6 +306,7 @@ def scripted_cases(quick):
                     for d in sorted({0, hq}):
                         cases.append(mk(answer=("wrong", d)))
                         cases.append(mk(answer=("wrong_hi", d)))
+                        cases.append(mk(answer=("wrong_spelled", d)))
                         cases.append(mk(answer=("noid", d)))
                     if hb >= 2:
                         # a sequence gap (filled by the peer on request) while a TestRequest is pending, answer arrives late
